@@ -69,6 +69,50 @@ def _is_write_open(call):
     return True   # computed mode: may write
 
 
+def multiline_list_text(pm, ctx):
+    """generate_multiline_list emits every piece of text it is given: on every
+    path the `before` and `after` strings reach an emit, unless the path has
+    established that the string is empty."""
+    from ..paths import enumerate_paths
+    f = pm.func(B + '.CodeBackend.generate_multiline_list')
+    nested_emits = {}
+    for nm, g in f.nested.items():
+        nested_emits[nm] = [c.args[0] for c in own_nodes(g.node) if isinstance(c, ast.Call) and
+                            call_name(c) == 'emit' and c.args]
+    bad = []
+    n_paths = 0
+    for p in enumerate_paths(f.node, max_paths=20000):
+        if p.end == 'raise':
+            continue
+        n_paths += 1
+        emitted = set()
+        for st in p.stmts:
+            for c in ast.walk(st) if not isinstance(st, (ast.If, ast.For, ast.While, ast.With,
+                                                        ast.FunctionDef)) else []:
+                if isinstance(c, ast.Call) and call_name(c) == 'emit' and c.args:
+                    emitted |= {x.id for x in ast.walk(c.args[0]) if isinstance(x, ast.Name)}
+                elif isinstance(c, ast.Call) and isinstance(c.func, ast.Name) and \
+                        c.func.id in nested_emits:
+                    for a in nested_emits[c.func.id]:
+                        emitted |= {x.id for x in ast.walk(a) if isinstance(x, ast.Name)}
+        for prm in ('before', 'after'):
+            if prm in emitted:
+                continue
+            known_empty = any((not pol) and any(isinstance(x, ast.Name) and x.id == prm
+                                                for x in ast.walk(e)) and
+                              not any(isinstance(x, ast.Compare) for x in ast.walk(e))
+                              for e, pol in p.atoms)
+            if not known_empty:
+                bad.append((prm, p.end_node.lineno if p.end_node is not None else f.node.end_lineno))
+    ctx.check('C18-R3', n_paths >= 6 and not bad,
+              'generate_multiline_list emits `before` and `after` on every path (%d paths)'
+              % n_paths, f.loc,
+              msg='generate_multiline_list has a path on which %s is neither emitted nor known '
+                  'to be empty: text given to the backend interface is dropped'
+                  % sorted({b[0] for b in bad}),
+              key='C18-R3|%s|text' % f.qualname)
+
+
 def run(pm, ctx):
     for r, t in (('C18-R1', 'write sinks are audited and dominated by containment validation'),
                  ('C18-R2', 'manifest early-exit dominates content sinks; listings sorted'),
@@ -151,6 +195,20 @@ def run(pm, ctx):
               key='C18-R1|%s' % comp.qualname)
 
     # ---------------- R2
+    # manifest mode differs from a real run only inside _record_output_path: nothing else
+    # reads the backend's output_manifest attribute (a backend that branched on it could
+    # compute other paths than it writes)
+    readers = sorted({f.short for f in pm.functions.values()
+                      if f.module.name.startswith('stone.backend') or
+                      f.module.name.startswith('stone.backends.')
+                      for n in own_nodes(f.node)
+                      if isinstance(n, ast.Attribute) and n.attr == 'output_manifest' and
+                      isinstance(n.ctx, ast.Load) and 'python_rsrc' not in f.module.name})
+    ctx.check('C18-R2', readers == ['backend.Backend._record_output_path'],
+              'only Backend._record_output_path reads output_manifest', B.replace('.', '/') +
+              '.py', msg='output_manifest is read by %s: a manifest run takes different paths '
+                         'than a real run there, so the manifest no longer lists what is written'
+                         % readers, key='C18-R2|manifest-readers')
     om = pm.func(B + '.OutputManifest.outputs')
     ctx.check('C18-R2', returns_text(om.node) == 'sorted(self._outputs)', 'OutputManifest.outputs is sorted', om.loc,
               msg='the manifest listing is no longer sorted', key='C18-R2|%s' % om.qualname)
@@ -329,6 +387,8 @@ def run(pm, ctx):
               'generate_multiline_list indents continuation lines through indent()', gml.loc,
               msg='generate_multiline_list indentation changed: %s' % ws,
               key='C18-R4|%s' % gml.qualname)
+
+    multiline_list_text(pm, ctx)
 
 
 def _check_sink(pm, ctx, f, call, d, kind):
